@@ -146,7 +146,7 @@ func (d *dev) Input(c *devsim.Conn, b []byte) {
 			d.h.send(c, d.h.cur) // no-op until the request has been seen
 		}
 		d.h.fire(c, fmt.Sprintf("next-write-%d", d.h.writesInCall))
-		if d.h.s.Calls[d.h.cur].Plan == "straddle" && d.h.writesInCall >= d.h.maxWrites {
+		if p := d.h.s.Calls[d.h.cur].Plan; (p == "straddle" || p == "pause") && d.h.writesInCall >= d.h.maxWrites {
 			d.h.sendHead(c, d.h.cur)
 		}
 	}
@@ -332,10 +332,12 @@ func (h *harness) deliveredTime(off int) (time.Time, bool) {
 	return time.Time{}, false
 }
 
-func invoke(d *netconf.Driver, c Call, to time.Duration) (*response.NetconfResponse, error) {
+func invoke(d *netconf.Driver, c Call, to time.Duration, setChannel bool) (*response.NetconfResponse, error) {
 	t := opoptions.WithTimeoutOps(to)
-	// methods without per-operation options use the channel's default
-	d.Channel.TimeoutOps = to
+	if setChannel {
+		// methods without per-operation options use the channel's default
+		d.Channel.TimeoutOps = to
+	}
 	switch c.Kind {
 	case "get":
 		return d.Get(c.Arg, t)
@@ -526,7 +528,11 @@ func RunSession(s Session) mon.Result {
 
 	sc := &slowConn{Conn: conn, tty: s.TTY, ttyRng: rand.New(rand.NewSource(s.Seg.Seed ^ 0x7479))}
 	h.sc = sc
-	dopts := []util.Option{options.WithCustomTransport(sc), options.WithTimeoutOps(longTimeout)}
+	connTO := longTimeout
+	if s.ConnTimeoutMs > 0 {
+		connTO = time.Duration(s.ConnTimeoutMs) * time.Millisecond // stays untouched for the whole session
+	}
+	dopts := []util.Option{options.WithCustomTransport(sc), options.WithTimeoutOps(connTO)}
 	// forced schedules (process-wide yield hook; these cases run solo)
 	var fcCur, fcWantID, fcReadTops int64 = -1, 0, 0
 	var fcArmed, fcStored int32
@@ -696,7 +702,7 @@ func RunSession(s Session) mon.Result {
 		sc.n, sc.slowAt, sc.delay, sc.slowEnd = 0, call.SlowWrite, time.Duration(call.SlowMs)*time.Millisecond, time.Time{}
 		start := time.Now()
 		var tailDone chan struct{}
-		if call.Plan == "straddle" {
+		if call.Plan == "straddle" || call.Plan == "pause" {
 			// the tail of the reply goes out TailAtMs after the call started (shortly before or after
 			// the caller's deadline); nothing else is written to the stream until it is out
 			tailDone = make(chan struct{})
@@ -713,7 +719,7 @@ func RunSession(s Session) mon.Result {
 				}
 			}()
 		}
-		res, err := invoke(d, call, to)
+		res, err := invoke(d, call, to, s.ConnTimeoutMs == 0)
 		retAt := time.Now()
 		atomic.StoreInt64(&fcCur, -1)
 		if parkDone != nil {
@@ -770,6 +776,9 @@ func RunSession(s Session) mon.Result {
 		}
 		if call.Plan == "forced" {
 			desc += "/" + call.Force
+		}
+		if call.Plan == "pause" {
+			desc += fmt.Sprintf("(head %d%%, tail after %d ms, connection timeout %d ms)", call.HeadPct, call.TailAtMs, s.ConnTimeoutMs)
 		}
 		if call.Plan == "straddle" {
 			desc += fmt.Sprintf("(head %d%%, tail at %d ms)", call.HeadPct, call.TailAtMs)
@@ -925,6 +934,8 @@ func RunSession(s Session) mon.Result {
 				if call.Force == "parked" {
 					obs["forced_control_reply_filed_after_caller_parked"]++
 				}
+			} else if call.Plan == "pause" {
+				obs["success_reply_with_server_pause_longer_than_connection_timeout"]++
 			} else if call.Plan != "now" {
 				hist = append(hist, desc+" → RESULT")
 				return bad("c08/harness-plan", "call %d planned %s returned its own reply", k, call.Plan)
@@ -1005,7 +1016,7 @@ func RunSession(s Session) mon.Result {
 
 		case errors.Is(err, util.ErrTimeoutError):
 			sawTimeout = true
-			if call.Plan == "now" || call.Plan == "forced" {
+			if call.Plan == "now" || call.Plan == "forced" || call.Plan == "pause" {
 				hist = append(hist, desc+" → TIMEOUT")
 				if rc.reqSeen == 0 {
 					return bad("c08/request-missing", "call %d (%s) timed out and the server never saw a request for it", k, call.Kind)
@@ -1040,6 +1051,8 @@ func RunSession(s Session) mon.Result {
 				}
 				cause := fmt.Sprintf("%s:echo=%v:after-%s", s.Version, s.Echo, h.prevOutcome)
 				switch {
+				case call.Plan == "pause":
+					cause = fmt.Sprintf("%s:server-paused-mid-reply-longer-than-connection-timeout:after-%s", s.Version, h.prevOutcome)
 				case early && call.PauseBeforeMs > 0:
 					cause = fmt.Sprintf("%s:timeout-error-before-deadline:after-quiet-period-following-%s", s.Version, h.prevOutcome)
 				case early:
@@ -1300,6 +1313,7 @@ func init() {
 			"a fixed share of the replies in sessions with whole / >=4096-byte reads, no unmarked echo, no tty cuts carries a data line that reads exactly '##': the model hands such a reply over in ONE read (checked against the event log), where the pinned library files it whole; a read boundary behind the inner line is the known C02 frame-boundary finding and is not generated here",
 			"profile bigreq: eight edit-config requests whose serialized length runs through m*16384-2 .. m*16384+5 (m = 1..4), echoing and non-echoing transports; as everywhere the Result is compared with the server's reply body, not only with the id",
 			"half of the big replies of profile big are ONE line of 64-300 KB (1.1: sent as one chunk), a quarter of those within +-350 bytes of the 64 KiB mark",
+			"profile pause: connection-wide operation timeout 200-400 ms (never changed during the session), every call with its own per-operation timeout (5 s; 150 ms for planned late/never) through methods that accept one; plan pause = head of the reply after the call's last write, tail 1.5-3 x the connection-wide timeout after the call started; the call must return its reply",
 			"a planned-now reply is sent either the moment the request is complete (before the echo of the trailing return) or after the call's last transport write (nothing follows the reply)",
 			"the server answers with message-id=\"N\" in double quotes, N the id of the request, and replies never precede the complete request",
 			"random reply bodies and request arguments contain none of: ']]>]]>', '#', '</rpc>', 'message-id', 'subscription-id' (checked by brute force by the generator); " +
